@@ -40,8 +40,21 @@ def classes_table():
     return dict((rid, {"cls": ruledocs.doc_class(v["tags"]), "tags": v["tags"], "phase": v["phase"], "mayDrop": v["may_drop_comments"]}) for rid, v in docs.items())
 
 
+class RunTimeout(BaseException):
+    pass
+
+
+def _alarm(signum, frame):
+    raise RunTimeout()
+
+
 def run_item(item, job, interner, classes, workdir):
-    """one traced execution; returns the run record"""
+    """one traced execution; returns the run record.  A run that does not return within job["timeout"] seconds (default
+    300; the slowest fixture takes about 10) is interrupted and recorded as a hang (C19)."""
+    import signal
+
+    signal.signal(signal.SIGALRM, _alarm)
+    signal.alarm(int(job.get("timeout", 300)))
     T = hooks.set_tracer(hooks.Tracer(interner=interner, probe=job.get("probe", False), deep=job.get("deep", False), classes=classes))
     T.reparse = job.get("reparse", False)
     name = item.get("name") or os.path.basename(item["path"])
@@ -93,12 +106,19 @@ def run_item(item, job, interner, classes, workdir):
     except SystemExit as e:
         rec["status"] = "exit"
         rec["exit"] = bool(e.code)
+    except RunTimeout:
+        rec["status"] = "hang"
+        hooks.set_tracer(T)
+        T.muted = 0
+        T.cur = None
+        T.emit({"e": "RunHang", "where": traceback.format_exc()[-600:]})
     except Exception as e:  # a crash of VSG itself (C19); recorded, never hidden
         rec["status"] = "crash"
         rec["crash"] = type(e).__name__ + ": " + str(e)[:200]
         rec["tb"] = traceback.format_exc(limit=6)[-1500:]
         T.emit({"e": "RunCrash", "exc": type(e).__name__})
     finally:
+        signal.alarm(0)
         for p in (tmp, tmp + ".tmp", tmp + ".bak"):
             try:
                 os.remove(p)
